@@ -216,6 +216,14 @@ def register(chk):
         chk.add("negative:" + k, ob_negative, k)
 
 
+def include_in(chk):
+    """this check's obligations registered inside another check (framework.Check.include): the LQ-IBE operations run on objects of exactly the
+    documented sizes with every access checked (memory safety of valid calls, C17 part 2)"""
+    chk.replayer = replay_c16
+    lq.prog()
+    register(chk)
+
+
 def main(argv=None):
     chk = Check("C16", "proof", argv)
     chk.replayer = replay_c16
